@@ -30,7 +30,10 @@ RULE = ("generated child sets (0..50 children, names from several scripts incl. 
         "generation), both slots compared with what was given; the listing (AuxValueDict with cached raw entries) of the unpacked directory is also packed for "
         "ANOTHER directory with a different write key (pack_children, create_dirnode(initial_children=), "
         "create_subdirectory(initial_children=)) and read back through that directory's write handle; "
-        "non-trivial = at least one child / a non-empty cap")
+        "plus multi-step histories on real directories (children linked in one batch with byte-identical metadata, one of "
+        "them modified by set_metadata_for / set_uri / set_node / a sibling deleted, the directory listed again): every "
+        "child's metadata is deep-compared with an independent netstring/JSON decode of the stored bytes, and two unpacks "
+        "of the same bytes must not share state; non-trivial = at least one child / a non-empty cap")
 TRUSTED = ["lean/Tahoe/Dir/Pack.lean is a hand transcription of the pack/unpack code, UnknownNode.__init__, "
            "uri.from_string's prefix/constraint logic and create_from_cap",
            "the cap classification table sent to the driver is computed with the real uri.from_string / to_string / get_readonly"]
@@ -743,6 +746,96 @@ def generations(ctx, w, case, grid, lines, impls, cases, capstrs):
         ctx.count("grid-api")
 
 
+# ------------------------------------------------------------------ multi-step histories on a real directory
+
+HIST_CORPUS = [
+    # children linked in one batch (byte-identical metadata), one of them modified afterwards, the directory listed again
+    # (seeded C19-d: parse results cached and shared between children and between listings)
+    {"hist": True, "n": 3, "md": {"k": {"nested": [1, {"z": None}]}, "flat": "v"}, "modify": "set_metadata_for", "which": 0},
+    {"hist": True, "n": 2, "md": {}, "modify": "set_uri", "which": 1},
+    {"hist": True, "n": 4, "md": {"u": [1, 2]}, "modify": "set_node", "which": 2},
+]
+
+
+def gen_hist(rng):
+    return {"hist": True, "n": rng.choice([2, 3, 5, 8]), "md": gen_meta(rng), "which": rng.randrange(2),
+            "modify": rng.choice(["set_metadata_for", "set_uri", "set_node", "delete-sibling"])}
+
+
+def deep_mutate(x):
+    """change every dict / list reachable from x in place"""
+    if isinstance(x, dict):
+        for v in list(x.values()):
+            deep_mutate(v)
+        x["c19-mutated"] = 1
+    elif isinstance(x, list):
+        for v in x:
+            deep_mutate(v)
+        x.append("c19-mutated")
+
+
+def history_case(ctx, w, case, lines, impls, cases):
+    """batch link -> list -> modify one child -> list again: every child's metadata must be what an independent decode
+    of the stored bytes gives; two unpacks of the same bytes must not share state"""
+    rt = w.rt
+    md0 = {k: v for k, v in case["md"].items() if k not in ("no-write", "tahoe")}
+    d = rt.wait(w.c.create_dirnode())
+    names = ["child-%d" % i for i in range(case["n"])]
+    lits = [bytes.fromhex(lit(b"h%d" % i)) for i in range(case["n"] + 1)]
+    rt.clock.advance(3)
+    rt.wait(d.set_children({nm_: (None, lits[i], json.loads(json.dumps(md0))) for i, nm_ in enumerate(names)}))
+    first = rt.wait(d.list())
+
+    def stored():
+        raw = rt.wait(d._node.download_best_version())
+        return raw, {e[0].decode("utf-8"): json.loads(e[3]) for e in parse_packed(raw)}
+
+    def compare(label, listing, sig):
+        raw, want = stored()
+        if set(listing) != set(want):
+            ctx.violation("%s: the listed names differ from the stored entries" % label, case, sig + ":names")
+            return raw
+        for k in want:
+            if listing[k][1] != want[k]:
+                ctx.violation("%s: the metadata of a child differs from what is stored for it" % label, case, sig,
+                              {"name": k, "listed": repr(listing[k][1])[:200], "stored": repr(want[k])[:200]})
+        return raw
+    compare("after the batch link", first, "metadata-differs-from-stored:after-batch-link")
+    rt.clock.advance(7)
+    target = names[case["which"] % len(names)]
+    how = case["modify"]
+    if how == "set_metadata_for":
+        rt.wait(d.set_metadata_for(target, {"changed": {"deep": [1]}}))
+    elif how == "set_uri":
+        rt.wait(d.set_uri(target, None, lits[-1], metadata={"changed": 1}))
+    elif how == "set_node":
+        rt.wait(d.set_node(target, w.c.create_node_from_uri(None, lits[-1])))
+    else:
+        rt.wait(d.delete(target))
+    second = rt.wait(d.list())
+    raw = compare("after a sibling was updated (%s)" % how, second, "metadata-differs-from-stored:after-sibling-update")
+    # the model on the stored bytes
+    dm = to_model_cipher(d, raw)
+    lines.append("unpack mw %s %s %s" % (class_table({x for x in lits}), "-", hx(dm)))
+    impls.append("ok:" + show_unpacked(d._unpack_contents(raw)))
+    cases.append({"unpack": "mw", "what": "history:" + how, "case": case})
+    # two unpacks of the same bytes are independent values
+    r1 = d._unpack_contents(raw)
+    for k, (n, md) in r1.items():
+        deep_mutate(md)
+    r2 = d._unpack_contents(raw)
+    want = {e[0].decode("utf-8"): json.loads(e[3]) for e in parse_packed(raw)}
+    for k in want:
+        if k not in r2 or r2[k][1] != want[k]:
+            ctx.violation("changing the metadata returned by one _unpack_contents changes what the next one returns", case,
+                          "unpack-results-share-state", {"name": k})
+            break
+    third = rt.wait(d.list())
+    compare("after the unpack results were modified", third, "metadata-differs-from-stored:after-result-mutation")
+    ctx.case(("hist", case["n"], how))
+    ctx.count("history:" + how)
+
+
 def gen_case(rng, nmax):
     caps = cap_strings(rng)
     n = rng.choice([0, 1, 2, 3, 5, 8, 13, nmax])
@@ -825,11 +918,22 @@ def run(ctx):
         for i in range(0 if os.environ.get("VERIF_CORPUS_ONLY") == "1" else ctx.budget(120, 2500)):
             nmax = 50 if i % 10 == 0 else 20
             cases_in.append(gen_immutable_case(ctx.rng, nmax) if ctx.rng.random() < 0.3 else gen_case(ctx.rng, nmax))
+    corpus_only = os.environ.get("VERIF_CORPUS_ONLY") == "1"
+    hists = []
+    if ctx.replay:
+        if cases_in and cases_in[0].get("hist"):
+            hists, cases_in = cases_in, []
+    else:
+        hists = [json.loads(json.dumps(h)) for h in HIST_CORPUS]
+        for i in range(0 if corpus_only else ctx.budget(6, 120)):
+            hists.append(gen_hist(ctx.rng))
     lines, impls, cases = [], [], []
     with grid.Runtime(seed=ctx.seed, policy="random") as rt:
         g = grid.Grid(grid.fresh_dir("c19"), rt, num_servers=3, num_clients=1, k=1, happy=1, n=2)
         try:
             w = World(ctx, rt, g)
+            for case in hists:
+                history_case(ctx, w, case, lines, impls, cases)
             for case in cases_in:
                 if "create" in case or "children" not in case:
                     continue
